@@ -246,6 +246,8 @@ static void enumerate(void) {
 		vf_dom_uniq(&S); mpz_set_str(kref, "3c9a1b2d4e5f60718293a4b5c6d7e8f90a1b2c3d4e5f60718293a4b5c6d7e8f9", 16); mpz_mod(kref, kref, RN);
 		int rids[] = {R_EP_MONTY, R_EP_LWREG, R_EP_LWNAF, R_BN_REC_REG, R_BN_MXP_MONTY, R_FP_EXP_MONTY, R_BN_MXP_SLIDE};
 		for (unsigned ri = 0; ri < 7; ri++) { if (ri >= 4 && ci) continue; for (int j = 0; j < S.n && !vf_expired(); j++) if (vf_mine()) { if (ri >= 4 && mpz_sizeinbase(S.v[j], 2) != mpz_sizeinbase(kref, 2)) continue; reg(rids[ri], CIDS[ci], kref, S.v[j]); } }
+		/* the sign of the scalar is part of its value: the two regular multiplications on negated secrets */
+		for (unsigned ri = 0; ri < 2; ri++) for (int j = 0; j < S.n && !vf_expired(); j += 3) if (vf_mine()) { mpz_neg(t, S.v[j]); reg(rids[ri], CIDS[ci], kref, t); }
 		if (CIDS[ci] == BN_P256) { int pr[] = {R_EP2_MONTY, R_EP2_LWREG, R_G1_SEC, R_G2_SEC, R_GT_SEC}; for (unsigned ri = 0; ri < 5; ri++) for (int j = 0; j < S.n && !vf_expired(); j += (vf_tier ? 1 : 2)) if (vf_mine()) { if (pr[ri] == R_GT_SEC && mpz_sizeinbase(S.v[j], 2) != mpz_sizeinbase(kref, 2)) continue; /* an exponent's bit length is public */ reg(pr[ri], BN_P256, kref, S.v[j]); } }
 		vf_dom_clear(&S); vf_bound_done(bn); }
 	if (vf_bound_on("w64-binary-curves")) {
